@@ -774,3 +774,32 @@ func (e *Engine) Script() []string {
 	}
 	return out
 }
+
+// Clone copies the model (the project description is not copied).
+func (m *Model) Clone() *Model {
+	c := &Model{Clock: m.Clock, T: map[string]*MT{}}
+	for k, v := range m.T {
+		x := *v
+		c.T[k] = &x
+	}
+	return c
+}
+
+// CopyDir copies a directory tree (regular files and directories).
+func CopyDir(src, dst string) error {
+	return filepath.Walk(src, func(p string, info os.FileInfo, err error) error {
+		if err != nil {
+			return err
+		}
+		rel, _ := filepath.Rel(src, p)
+		target := filepath.Join(dst, rel)
+		if info.IsDir() {
+			return os.MkdirAll(target, 0o755)
+		}
+		b, err := os.ReadFile(p)
+		if err != nil {
+			return err
+		}
+		return os.WriteFile(target, b, info.Mode())
+	})
+}
